@@ -235,7 +235,10 @@ def check_inv_root(name: str, F_post: torch.Tensor, X_post: torch.Tensor, root: 
     # history: factor ~1e23, root ~3e-43 in float32): the same floor as in comp(), relative to the size of the exact root
     xr_norm = float(torch.linalg.matrix_norm(Xr, 2)) if n > 1 else float(Xr.abs().max())
     if X_post.dtype.is_floating_point and xr_norm > 0:
-        bound = bound + 4.0 * float(torch.finfo(X_post.dtype).tiny) * n / xr_norm
+        # the root is computed in the factor dtype and stored in the block dtype: the coarser of the two subnormal thresholds applies
+        tiny_f = max((float(torch.finfo(dt_).tiny) for dt_ in (torch.float16, torch.bfloat16, torch.float32, torch.float64)
+                      if abs(float(torch.finfo(dt_).eps) - ef) <= 1e-3 * ef), default=0.0)
+        bound = bound + 4.0 * max(float(torch.finfo(X_post.dtype).tiny), tiny_f) * n / xr_norm
     err = float(torch.linalg.matrix_norm(X - Xr, 2) / torch.linalg.matrix_norm(Xr, 2)) if n > 1 else float((X - Xr).abs().max() / Xr.abs().max())
     return Comp(name, err, bound, informative=bound < UNINFORMATIVE)
 
